@@ -60,6 +60,12 @@ class InstrShape(PipeShape):
         elif ctxt == 'uppercase':
             mn = st['text'].split()[0]
             src = f".org o0\nt0: {mn.upper() + st['text'][len(mn):]}\nt1: .byte 238\n"
+        if params.get('prelude'):
+            # other statements assembled earlier in the same run (in a muted region, so they emit nothing): what the
+            # statement under test assembles to must not depend on what was assembled before it
+            src = '#mute\n' + '\n'.join(params['prelude']) + '\n#unmute\n' + src
+            if files:
+                files['main.asm'] = src
         self.params.setdefault('files', files or {'main.asm': src})
         self.params.setdefault('start', Sym('o0', 0x100, 0x7000))
 
@@ -88,13 +94,16 @@ class InstrShape(PipeShape):
             u['value'] = evaluate(u['val'], env, labels) if u.get('val') is not None else None
             if u.get('index_val') is not None:
                 u['index_value'] = evaluate(u['index_val'], env, labels)
-        _, _, size = isaref.encode(cfg, st, env, o0, zones)
-        labels = {'t0': o0, 't1': o0 + E.bvval(size)}
+        # `lead_bytes`: the statement is the last step of a macro whose earlier steps emit these bytes
+        lead = len(self.params['stmt'].get('lead_bytes', ()))
+        at = o0 + E.bvval(lead)
+        _, _, size = isaref.encode(cfg, st, env, at, zones)
+        labels = {'t0': o0, 't1': at + E.bvval(size)}
         for u in st.get('uses', []):
             u['value'] = evaluate(u['val'], env, labels) if u.get('val') is not None else None
             if u.get('index_val') is not None:
                 u['index_value'] = evaluate(u['index_val'], env, labels)
-        return isaref.encode(cfg, st, env, o0, zones)
+        return isaref.encode(cfg, st, env, at, zones)
 
     def judge(self, env, out):
         props = self.params.get('props', ['C01'])
@@ -104,13 +113,13 @@ class InstrShape(PipeShape):
         fields, accept, size = self.reference(env)
         if out.kind != 'ok':
             return [(f'{tag}.statement_satisfying_every_constraint_is_assembled', z3.Not(accept))]
-        ref = O.encode_fields(fields) + [E.bvval(238)]
+        ref = [E.bvval(b) for b in self.params['stmt'].get('lead_bytes', ())] + O.encode_fields(fields) + [E.bvval(238)]
         if self.params.get('muted'):
             ref = [E.bvval(0)] * size + [E.bvval(238)]
         obl = []
         if 'C12' in props:
             obl.append(('C12.accepted_statement_satisfies_every_configured_constraint', accept))
-        if 'C01' in props or 'C12' in props or 'C13' in props:
+        if True:
             obl.append((f'{tag}.image_is_the_prescribed_bit_layout', z3.Implies(accept, O.bytes_equal(
                 None if out.image is None else [E.SymInt(zv(b) & E.bvval(0xff)) for b in out.image], ref))))
         return obl
